@@ -2491,9 +2491,9 @@ pub fn run(cfg: &Config, s: &mut Session, r: &mut Rng) {
     let th = cfg.thorough();
     let seen = std::cell::RefCell::new(std::collections::BTreeSet::new());
     let _ = FontData::new(&[]);
-    unit_coverage(s, r, if th { 6000 } else { 600 });
-    unit_classdef(s, r, if th { 6000 } else { 600 });
-    let nsyn = if th { 400 } else { 60 };
+    unit_coverage(s, r, if th { 20000 } else { 600 });
+    unit_classdef(s, r, if th { 20000 } else { 600 });
+    let nsyn = if th { 1500 } else { 60 };
     for id in 0..nsyn {
         let sf = syn_gdef_font(r, id);
         let Ok(font) = FontRef::new(&sf.data) else { continue };
@@ -2513,7 +2513,7 @@ pub fn run(cfg: &Config, s: &mut Session, r: &mut Rng) {
         run_request(s, &fc, &Req { gids: (0..sf.n as u32).collect(), unicodes: vec![], flags: F_RETAIN_GIDS });
         run_request(s, &fc, &Req { gids: vec![1, 2, 3, 5], unicodes: vec![], flags: 0 });
     }
-    for id in 0..(if th { 200 } else { 30 }) {
+    for id in 0..(if th { 600 } else { 30 }) {
         let sf = syn_layout_font(r, id);
         let Ok(font) = FontRef::new(&sf.data) else { continue };
         let cps: Vec<u32> = (1..sf.n as u32).map(|g| 0x100 + g).collect();
@@ -2536,7 +2536,7 @@ pub fn run(cfg: &Config, s: &mut Session, r: &mut Rng) {
             s.count(&format!("corpus-with-gsub-gpos:{}", label));
         }
         let fc = Ctx { label, font, corr: true, oracles: true, seen: &seen };
-        let nreq = if th { 40 } else { 6 };
+        let nreq = if th { 80 } else { 6 };
         for _ in 0..nreq {
             let req = rand_request(r, n, &cps);
             run_request(s, &fc, &req);
